@@ -496,3 +496,199 @@ def vac_C16(results, extra):
 PROPS['C16'] = dict(items=items_C16, bounds={'quick': {'unit': 'inc_strong / Rc::clone over all 2^64 counter values', 'scenarios': 'ring2, self-clone, named N=3 shapes; each member destructor clones each handle it holds; 2 drop orders; 3 layouts'},
                                              'thorough': {'unit': 'as quick', 'scenarios': 'plus named N=4 shapes, N=2 multiplicity 2, all drop orders'}},
                     outside=OUTSIDE, vacuity=vac_C16, replay_oracles=['C16'])
+
+
+# ------------------------------------------------------------------ C10 re-entrant destructors
+def c10_shapes(tier):
+    R = lambda i, j: (i, j, True, False)
+    sh = [(1, [], 'plain1'), (2, [(0, 1, False, False)], 'chain-unrecorded'), (2, [R(0, 1)], 'owner-target'),
+          (1, [(0, 0, True, False)], 'selfclone1'), (2, [R(0, 1), R(1, 0)], 'ring2'), (3, F.named_shapes(3)['ring2+tail'], 'ring2+tail')]
+    if tier != 'quick':
+        for nm, e in F.named_shapes(3).items():
+            sh.append((3, e, nm))
+        sh.append((4, F.named_shapes(4)['tworings4'], 'tworings4'))
+    return sh
+
+
+def c10_actions(n):
+    """actions a destructor performs on bystanders: B = object n (handle hB, symbolic extras), group {P,Q} = n+1,n+2 (only hP held)"""
+    A = {}
+    A['clone'] = [{'op': 'clone', 'h': 'hB', 'as': 'x1'}]
+    A['clone-drop'] = [{'op': 'clone', 'h': 'hB', 'as': 'x1'}, {'op': 'drop', 'h': 'x1'}]
+    A['drop'] = [{'op': 'drop', 'h': 'hB'}]
+    A['downgrade-upgrade'] = [{'op': 'downgrade', 'h': 'hB', 'as': 'wx'}, {'op': 'upgrade', 'w': 'wx', 'as': 'y1'}, {'op': 'w_strong_count', 'w': 'wx'}]
+    A['adopt'] = [{'op': 'clone', 'h': 'hP', 'as': 'tt'}, {'op': 'adopt', 'a': 'hB', 'b': 'tt'}, {'op': 'store', 'via': 'hB', 'h': 'tt'}]
+    A['unadopt'] = [{'op': 'take', 'via': 'hP', 'slot': 0, 'as': 'tq'}, {'op': 'unadopt', 'a': 'hP', 'b': 'tq'}, {'op': 'strong_count', 'h': 'tq'}]
+    A['nested-collection'] = [{'op': 'drop', 'h': 'hP'}]
+    A['counts'] = [{'op': 'strong_count', 'h': 'hB'}, {'op': 'weak_count', 'h': 'hB'}, {'op': 'deref', 'h': 'hB'}]
+    return A
+
+
+def items_C10(tier, seed, P):
+    items = []
+    for (n, e, nm) in c10_shapes(tier):
+        B, Pp, Q = n, n + 1, n + 2
+        for actor in range(n):
+            for an, acts in c10_actions(n).items():
+                ops = F.build_ops(n, e, extras=True)
+                ops += [{'op': 'new', 'obj': B, 'as': 'hB'}, {'op': 'extras', 'h': 'hB', 'n': 'eB'},
+                        {'op': 'new', 'obj': Pp, 'as': 'hP'}, {'op': 'new', 'obj': Q, 'as': 'hQ'},
+                        {'op': 'clone', 'h': 'hQ', 'as': 'tq0'}, {'op': 'adopt', 'a': 'hP', 'b': 'tq0'}, {'op': 'store', 'via': 'hP', 'h': 'tq0'},
+                        {'op': 'clone', 'h': 'hP', 'as': 'tp0'}, {'op': 'adopt', 'a': 'hQ', 'b': 'tp0'}, {'op': 'store', 'via': 'hQ', 'h': 'tp0'},
+                        {'op': 'drop', 'h': 'hQ'}]
+                # a Weak to a peer of the dying group, upgraded by the destructor (must be None or keep the peer alive)
+                peer = (actor + 1) % n
+                ops += [{'op': 'downgrade', 'h': H(peer), 'as': 'wp'}, {'op': 'store_weak', 'via': H(actor), 'w': 'wp'}]
+                ops.append({'op': 'on_drop', 'obj': actor, 'do': [{'op': 'upgrade', 'w': '^0', 'as': 'kp'}] + acts})
+                for seq in F.drop_sequences(n, n)[:2 if tier == 'quick' else None]:
+                    o2 = list(ops)
+                    for (k, i) in seq:
+                        o2 += F.drop_ops([(k, i)])
+                        o2.append({'op': 'drop_if', 'h': 'kp'})
+                    items.append(dict(prop='C10', name='%s dtor%d:%s drops=%s' % (nm, actor, an, ''.join('%s%d' % s for s in seq)), script={'ops': o2},
+                                      sym=True, oracles={'C01', 'C02', 'C03', 'C05', 'C06', 'C10'}, accept_props=['C10', 'C01', 'C02', 'C03', 'C05', 'C06'],
+                                      relabel=True, ub_prop='C10', opts={}, layouts=std_layouts(n, tier, seed)[:2 if tier == 'quick' else 4]))
+    return items
+
+
+def vac_dtor(results, extra):
+    if not any(r.get('sample') for r in results):
+        return 'no path completed'
+    return None
+
+
+PROPS['C10'] = dict(items=items_C10, bounds={'quick': {'shapes': 'plain object, unrecorded chain, owner/target, self-clone, ring2, ring2+tail; plus bystander B (symbolic extras) and a second group {P,Q}', 'positions': 'each member destructor of each shape', 'actions': 'one of: clone, clone+drop, drop (possibly last), downgrade+upgrade, adopt, unadopt, drop of the last handle of group {P,Q} (nested collection), counts/deref; every acting destructor also upgrades a Weak to a dying peer', 'layouts': 2},
+                                             'thorough': {'shapes': 'plus named N=3 shapes, two rings', 'layouts': 4}},
+                    outside=OUTSIDE + ['two injected actions per path', 'actions on objects that are themselves being destroyed (C16)'], vacuity=vac_dtor,
+                    replay_oracles=['C01', 'C02', 'C03', 'C05', 'C06', 'C10'])
+
+
+# ------------------------------------------------------------------ C11 panicking destructor
+def items_C11(tier, seed, P):
+    items = []
+    R = lambda i, j: (i, j, True, False)
+    sh = [(1, [], 'plain1'), (2, [(0, 1, False, False)], 'chain-unrecorded'), (2, [R(0, 1)], 'owner-target'),
+          (1, [(0, 0, True, False)], 'selfclone1'), (2, [R(0, 1), R(1, 0)], 'ring2')]
+    for nm, e in F.named_shapes(3).items():
+        sh.append((3, e, nm))
+    if tier != 'quick':
+        for nm, e in F.named_shapes(4).items():
+            sh.append((4, e, nm))
+    for (n, e, nm) in sh:
+        for k in range(n):
+            for seq in F.drop_sequences(n, n)[:3 if tier == 'quick' else None]:
+                ops = F.build_ops(n, e, extras=True, wextras=False)
+                ops.append({'op': 'on_drop_panic', 'obj': k})
+                for i in range(n):
+                    ops.append({'op': 'downgrade', 'h': H(i), 'as': 'ow%d' % i})
+                for (kk, i) in seq:
+                    ops.append({'op': 'catch', 'do': F.drop_ops([(kk, i)])})
+                    for j in range(n):
+                        # the temporary handle of a successful upgrade is dropped inside the catch: that drop may itself
+                        # orphan a group and run the panicking destructor
+                        ops += [{'op': 'catch', 'do': [{'op': 'upgrade', 'w': 'ow%d' % j}]}, {'op': 'w_strong_count', 'w': 'ow%d' % j}]
+                for j in range(n):
+                    ops.append({'op': 'wdrop', 'w': 'ow%d' % j})
+                items.append(dict(prop='C11', name='%s panic@%d drops=%s' % (nm, k, ''.join('%s%d' % s for s in seq)), script={'ops': ops}, sym=True,
+                                  oracles={'C11', 'C01', 'C02', 'C05'}, accept_props=['C11', 'C01', 'C02', 'C05'], relabel=True, ub_prop='C11',
+                                  opts={}, layouts=std_layouts(n, tier, seed)[:3 if tier == 'quick' else 6]))
+    return items
+
+
+def vac_C11(results, extra):
+    n = 0
+    for r in results:
+        s = r.get('sample')
+        if s and any(t[0] == 'ret' and t[1] == 'catch' and t[2] == 'panicked' for t in s['trace'] if len(t) > 2):
+            n += 1
+    if not any(r.get('sample') for r in results):
+        return 'no path completed'
+    return None
+
+
+PROPS['C11'] = dict(items=items_C11, bounds={'quick': {'shapes': 'plain, unrecorded chain, owner/target, self-clone, ring2, named N=3 shapes', 'fault': 'the destructor of member k panics (every k), one panic per history', 'orders': '3 drop orders', 'layouts': 3},
+                                             'thorough': {'shapes': 'plus named N=4', 'orders': 'all', 'layouts': 6}},
+                    outside=OUTSIDE + ['two panics (abort)', 'drop glue of Vec/slices is summarised: remaining elements are dropped after one element panics'],
+                    vacuity=vac_C11, replay_oracles=['C11', 'C01', 'C02', 'C05'])
+
+
+# ------------------------------------------------------------------ C13 forgetting unadopt
+def items_C13(tier, seed, P):
+    items = []
+    shapes = []
+    for n in (1, 2):
+        for e in F.shapes(n, max_mult=1 if tier == 'quick' else 2, recorded_only=True, allow_same=False):
+            if e:
+                shapes.append((n, e, F.describe(n, e)))
+    for nm, e in F.named_shapes(3).items():
+        if 'same' not in nm:
+            shapes.append((3, e, nm))
+    for (n, e, nm) in shapes:
+        # slot index of each edge inside its owner
+        for ei, (i, j, r, s) in enumerate(e):
+            slot = sum(1 for (a, b, c, d) in e[:ei] if a == i)
+            for keep in (True, False):
+                base = F.build_ops(n, e, extras=True)
+                base.append({'op': 'take', 'via': H(i), 'slot': slot, 'as': 'st'})
+                if not keep:
+                    base.append({'op': 'drop', 'h': 'st'})
+                for seq in F.drop_sequences(n, n):
+                    ops = list(base)
+                    for (k, x) in seq:
+                        ops += F.drop_ops([(k, x)])
+                        if keep:
+                            ops.append({'op': 'deref', 'h': 'st'})
+                    if keep:
+                        ops += [{'op': 'strong_count', 'h': 'st'}, {'op': 'drop', 'h': 'st'}]
+                    items.append(dict(prop='C13', name='%s forget-unadopt %d->%d %s drops=%s' % (nm, i, j, 'kept' if keep else 'dropped', ''.join('%s%d' % q for q in seq)),
+                                      script={'ops': ops}, sym=True, oracles={'C13'}, opts={'stale': True, 'panics_ok': False}, tags=['stale'],
+                                      layouts=std_layouts(n, tier, seed)[:2 if tier == 'quick' else 5]))
+    return items
+
+
+PROPS['C13'] = dict(items=items_C13, bounds={'quick': {'shapes': 'all fully recorded shapes N<=2 (held<=1), named N=3 shapes', 'history': 'one recorded handle is taken out of its owner without unadopt and then kept by the program or dropped; then every order of dropping the named handles; Deref of the kept handle after each step', 'counters': 'symbolic extras', 'layouts': 2},
+                                             'thorough': {'shapes': 'held<=2', 'layouts': 5}},
+                    outside=OUTSIDE, vacuity=vac_paths(), replay_oracles=['C13'])
+
+
+# ------------------------------------------------------------------ C12 handle-consuming APIs
+def items_C12(tier, seed, P):
+    items = []
+    R = lambda i, j: (i, j, True, False)
+    sh = [(2, [R(0, 1)], 'owner-target'), (2, [R(0, 1), R(1, 0)], 'ring2'), (1, [(0, 0, True, False)], 'selfclone1'),
+          (3, [R(0, 1), R(1, 2)], 'chain3'), (3, F.named_shapes(3)['ring3'], 'ring3'), (3, F.named_shapes(3)['ring2+tail'], 'ring2+tail')]
+    apis = {
+        'try_unwrap': lambda h: [{'op': 'try_unwrap', 'h': h, 'as': 'res'}],
+        'try_unwrap+weak': lambda h: [{'op': 'downgrade', 'h': h, 'as': 'wk'}, {'op': 'try_unwrap', 'h': h, 'as': 'res'}, {'op': 'upgrade', 'w': 'wk'}],
+        'make_mut': lambda h: [{'op': 'make_mut', 'h': h}],
+        'make_mut+weak': lambda h: [{'op': 'downgrade', 'h': h, 'as': 'wk'}, {'op': 'make_mut', 'h': h}, {'op': 'upgrade', 'w': 'wk'}],
+        'get_mut': lambda h: [{'op': 'get_mut', 'h': h}],
+        'raw-roundtrip': lambda h: [{'op': 'into_raw', 'h': h, 'as': 'rw'}, {'op': 'from_raw', 'r': 'rw', 'as': h}],
+        'inc-dec': lambda h: [{'op': 'as_ptr', 'h': h, 'as': 'rp'}, {'op': 'inc_strong', 'r': 'rp'}, {'op': 'strong_count', 'h': h}, {'op': 'dec_strong', 'r': 'rp'}],
+    }
+    for (n, e, nm) in sh:
+        for tgt in range(n):
+            for an, mk in apis.items():
+                for pre in ([], [('h', (tgt + 1) % n)] if n > 1 else []):
+                    base = F.build_ops(n, e, extras=False)
+                    base += F.drop_ops(pre)
+                    base += mk(H(tgt))
+                    rest = [i for i in range(n) if ('h', i) not in pre]
+                    for perm in (itertools.permutations(rest) if tier != 'quick' else [tuple(rest), tuple(reversed(rest))]):
+                        ops = list(base)
+                        for i in perm:
+                            if an.startswith('try_unwrap') and i == tgt:
+                                ops.append({'op': 'drop_any', 'h': 'res'})
+                            else:
+                                ops.append({'op': 'drop', 'h': H(i)})
+                        if 'weak' in an:
+                            ops.append({'op': 'wdrop', 'w': 'wk'})
+                        items.append(dict(prop='C12', name='%s %s on %d pre=%s then %s' % (nm, an, tgt, pre, perm), script={'ops': ops}, sym=False,
+                                          oracles={'C12', 'C08', 'C04'}, accept_props=['C12', 'C08', 'C04'], relabel=True, ub_prop='C12',
+                                          opts={'tables_exact': False, 'panics_ok': False, 'expect_all_freed': True}, layouts=std_layouts(n, tier, seed)[:2 if tier == 'quick' else 4]))
+    return items
+
+
+PROPS['C12'] = dict(items=items_C12, bounds={'quick': {'shapes': 'owner/target, ring2, self-clone, chain3, ring3, ring2+tail', 'calls': 'try_unwrap (with/without Weak), make_mut (with/without Weak), get_mut, into_raw/from_raw, increment/decrement_strong_count on every object, optionally after dropping a neighbour; then the remaining handles are dropped in 2 orders', 'counters': 'concrete (the APIs branch on strong==1 / weak==0: every branch is reached structurally)'},
+                                             'thorough': {'orders': 'all drop orders', 'layouts': 4}},
+                    outside=OUTSIDE, vacuity=vac_paths(), replay_oracles=['C12', 'C08', 'C04'])
